@@ -8,8 +8,7 @@ namespace Rapid
 
 /-! ### T.Repeat (statemachine.go) -/
 
-def siteEndOfBody : Nat := 9100     -- failOnError at the end of checkOnce
-def sitePending : Nat := 9101       -- pending non-fatal failure found after cleanup
+def sitePending : Nat := 9101       -- failOnError in pendingFailure, after the property and its cleanups
 def siteAfterAction : Nat := 9110   -- failOnError in runAction
 def siteAfterCheck : Nat := 9111    -- failOnError after sm.check in the loop
 def siteInitCheck : Nat := 9112     -- failOnError after the initial sm.check
@@ -63,11 +62,12 @@ structure Once where
   overran : Bool
 deriving Inhabited
 
-/-- `checkOnce(t, prop)`: prop, failOnError, deferred cleanup, deferred recover.  A panic in a
-    cleanup supersedes the body's; a non-fatal failure that is still pending after the
-    cleanups (Errorf then Skip, Errorf in a cleanup) falsifies this test case and is cleared. -/
+/-- `checkOnce(t, prop)`: `runProp` (prop, deferred cleanup, deferred recover: a panic in a
+    cleanup supersedes the body's), then `pendingFailure`: a non-fatal failure — however the
+    property ended: returned, skipped afterwards, signalled from a cleanup — falsifies this
+    test case (one traceback for all of them) and is cleared. -/
 def checkOnce (p : Prog) (src : Src) (ts : TS) : Once :=
-  let o := (p >>- fun _ => .failOnError siteEndOfBody (.ret .nil)).run src { ts with ctxCount := 0 }
+  let o := p.run src { ts with ctxCount := 0 }
   let c := cleanupPhase o.ts
   let err0 : Option Err := match c.err with
     | some e => some e
